@@ -38,9 +38,9 @@ CONSTANTS = {
         ("ALIGN_3", "arrow-ipc/src/writer.rs",
          r"alignment\s*==\s*\d+\s*\|\|\s*alignment\s*==\s*\d+\s*\|\|\s*alignment\s*==\s*\d+\s*\|\|\s*alignment\s*==\s*(\d+)\s*;", "int"),
         # --- validity-bitmap accounting per metadata version (writer, reader, projection skip) ---
-        # writer `has_validity_bitmap`: below this version only Null has no bitmap; from it on also Union and RunEndEncoded
+        # writer `has_validity_bitmap`: below this version Null and RunEndEncoded have no bitmap; from it on also Union
         ("HAS_VALIDITY_SPLIT_VERSION", "arrow-ipc/src/writer.rs",
-         r"fn\s+has_validity_bitmap\(data_type:\s*&DataType,\s*write_options:\s*&IpcWriteOptions\)\s*->\s*bool\s*\{\s*if\s+write_options\.metadata_version\s*<\s*crate::MetadataVersion::V(\d)\s*\{\s*!matches!\(data_type,\s*DataType::Null\)\s*\}\s*else\s*\{\s*!matches!\(\s*data_type,\s*DataType::Null\s*\|\s*DataType::Union\(_,\s*_\)\s*\|\s*DataType::RunEndEncoded\(_,\s*_\)\s*\)\s*\}\s*\}", "int"),
+         r"fn\s+has_validity_bitmap\(data_type:\s*&DataType,\s*write_options:\s*&IpcWriteOptions\)\s*->\s*bool\s*\{\s*if\s+write_options\.metadata_version\s*<\s*crate::MetadataVersion::V(\d)\s*\{\s*!matches!\(data_type,\s*DataType::Null\s*\|\s*DataType::RunEndEncoded\(_,\s*_\)\)\s*\}\s*else\s*\{\s*!matches!\(\s*data_type,\s*DataType::Null\s*\|\s*DataType::Union\(_,\s*_\)\s*\|\s*DataType::RunEndEncoded\(_,\s*_\)\s*\)\s*\}\s*\}", "int"),
         # reader `create_array`, Union arm: the validity buffer is consumed below this version
         ("READ_UNION_VALIDITY_BELOW", "arrow-ipc/src/reader.rs",
          r"Union\(fields,\s*mode\)\s*=>\s*\{\s*let\s+union_node\s*=\s*self\.next_node\(field\)\?;\s*let\s+len\s*=\s*union_node\.length\(\)\s*as\s+usize;\s*(?://[^\n]*\n\s*)*if\s+self\.version\s*<\s*MetadataVersion::V(\d)\s*\{\s*self\.next_buffer\(\)\?;\s*\}", "int"),
